@@ -37,7 +37,7 @@ stubs.install_sim_threads()
 ombott.error_render.render(HTTPError(500, "x"), "http://h/", False)
 
 POINTS = ["none", "before_hook", "handler_entry", "after_writes", "between_items", "after_hook"]
-KINDS = ["gen", "str", "raise", "crash", "404"]
+KINDS = ["gen", "str", "raise", "crash", "404", "badbody"]
 STATUS = [200, 404]
 
 
@@ -47,10 +47,18 @@ class Err:
 
 
 def env_for(kind, seg, qs, cookie):
-    path = {"gen": "/g/", "str": "/s/", "raise": "/r/", "crash": "/c/", "404": "/nope/"}[kind] + seg
-    return {"REQUEST_METHOD": "GET", "PATH_INFO": path, "QUERY_STRING": qs, "HTTP_COOKIE": "c=" + cookie, "SERVER_NAME": "h",
-            "SERVER_PORT": "80", "wsgi.url_scheme": "http", "wsgi.errors": Err(), "SERVER_PROTOCOL": "HTTP/1.1",
-            "HTTP_X_IN": "in-" + seg}
+    path = {"gen": "/g/", "str": "/s/", "raise": "/r/", "crash": "/c/", "404": "/nope/", "badbody": "/m/"}[kind] + seg
+    env = {"REQUEST_METHOD": "GET", "PATH_INFO": path, "QUERY_STRING": qs, "HTTP_COOKIE": "c=" + cookie, "SERVER_NAME": "h",
+           "SERVER_PORT": "80", "wsgi.url_scheme": "http", "wsgi.errors": Err(), "SERVER_PROTOCOL": "HTTP/1.1",
+           "HTTP_X_IN": "in-" + seg}
+    if kind == "badbody":
+        # malformed multipart body whose parsing error names a field that only this request submitted; JSON client, so the
+        # error document shows the error that was raised for THIS request
+        import io
+        body = b'--b\r\nContent-Disposition: form-data; name="field-of-' + cookie.encode() + b'"\r\n\r\n\xff\r\n--b--\r\n'
+        env.update({"REQUEST_METHOD": "POST", "CONTENT_TYPE": "multipart/form-data; boundary=b", "CONTENT_LENGTH": str(len(body)),
+                    "wsgi.input": io.BytesIO(body), "HTTP_ACCEPT": "application/json"})
+    return env
 
 
 def build_app(sched):
@@ -98,6 +106,13 @@ def build_app(sched):
         writes(x)
         sched("after_writes")
         raise HTTPResponse("raised:" + x, 202, X_R=x)
+
+    @app.route("/m/:x", method="POST")
+    def m(x):
+        sched("handler_entry")
+        writes(x)
+        sched("after_writes")
+        return "fields:" + ",".join(app.request.forms)
 
     @app.route("/c/:x")
     def c(x):
@@ -202,7 +217,7 @@ def queries(tier):
     T = tier == "thorough"
     out = []
     combos = [("gen", "gen", None), ("gen", "str", None), ("str", "raise", None), ("gen", "crash", None), ("raise", "404", None),
-              ("gen", "gen", "str")]
+              ("badbody", "badbody", None), ("gen", "gen", "str")]
     if T:
         combos += [(a, b, None) for a in KINDS for b in KINDS if (a, b, None) not in combos]
         combos += [("gen", "raise", "crash"), ("str", "gen", "gen"), ("crash", "gen", "404")]
